@@ -67,6 +67,13 @@ private def fui (name : String) : Option (St → Nat → Nat → Nat → St) :=
   | _ => none
 
 def handle : Handler
+  | "as4_mpf_urandomb", [.num seed, .num precBits, .num nbits] =>
+      if !(0 ≤ seed && seed < 2 ^ 64 && 0 ≤ precBits && precBits < 2 ^ 20 && 0 ≤ nbits && nbits < 2 ^ 20) then none else
+      let g := (Rand.Gen.mt Rand.mtDefault).seedUi seed.toNat
+      let s := (mpf_urandomb 0 (mkF (Rand.bitsToPrec precBits.toNat)) g nbits.toNat).1
+      if !s.ok then some [.err "oob"] else
+      let o := s.out
+      some [.num o.1, .num o.2.size, .num o.2.exp, .vec o.2.d]
   | name, [.num m, .num wa, .num wv, .num ua, .num uv, .num va, .num vv] => do
       let w ← mk? wa wv; let u ← mk? ua uv; let v ← mk? va vv
       match fdiv name with
